@@ -111,6 +111,13 @@ def t_repeat_root(t, roots):
     return roots
 
 
+def t_warmup(t, case):
+    """in a third of the single-sentence cases the sentence is parsed as the last of a call of 2-3 sentences
+    (parser_checks.execute builds the others from it)"""
+    if len(case['sentences']) == 1 and t.tail(2) % 3 == 0:
+        case['warmup'] = 1 + t.tail(3) % 2
+
+
 def t_table_case(t, head_modes=('left', 'right'), n_max=5, T_max=4, K_max=7, nbest_max=1,
                  numerics=('dyadic', 'dyadic', 'logsoftmax', 'flat'), beam='mild', multi_label=False,
                  n_sentences=1):
@@ -131,8 +138,10 @@ def t_table_case(t, head_modes=('left', 'right'), n_max=5, T_max=4, K_max=7, nbe
                 numeric = 'dyadic+offsets'      # rows moved by log(beta) +/- delta are no longer dyadic: tolerance
         sents.append(s)
     roots = t_repeat_root(t, roots)
-    return {'grammar': spec, 'tags': spec['cats'][:T], 'roots': roots, 'sentences': sents, 'config': cfg,
+    case = {'grammar': spec, 'tags': spec['cats'][:T], 'roots': roots, 'sentences': sents, 'config': cfg,
             'numeric': numeric, 'head_mode': head_mode}
+    t_warmup(t, case)
+    return case
 
 
 _DISTRACTORS = {}
@@ -174,9 +183,11 @@ def t_real_case(t, lang, n_max=5, nbest_max=1, numerics=('dyadic', 'dyadic', 'lo
     spec = {'kind': lang, 'seen': None, 'unary': idx.unary_spec()}
     if use_seen:
         spec['seen'] = 'shipped'
-    return {'grammar': spec, 'tags': [canon(c) for c in tags], 'roots': [canon(c) for c in roots],
+    case = {'grammar': spec, 'tags': [canon(c) for c in tags], 'roots': [canon(c) for c in roots],
             'sentences': [sent], 'config': cfg, 'numeric': numeric,
             'head_mode': 'left' if lang == 'en' else 'right', 'gold_parse_exists': not random_leaves}
+    t_warmup(t, case)
+    return case
 
 
 def resolve_grammar_spec(spec):
